@@ -73,6 +73,9 @@ pub struct PRun {
   pub clock_jumps: u64,
   pub timers_created: u64,
   pub tasks_spawned: u64,
+  /// global event sequence value at each task spawn / at each Emit action
+  pub spawn_stamps: Vec<u64>,
+  pub emit_stamps: Vec<u64>,
   pub locks: u64,
   pub finalizers: u64,
   pub sim_ns: u64,
@@ -240,6 +243,7 @@ fn run_pipeline_inner(case: &PCase, mut pool: Option<&mut futures::executor::Loc
       let r = catch_unwind(AssertUnwindSafe(|| match a {
         PAct::Emit { inp, ev } => {
           let i = *inp % case.n_hot;
+          run.emit_stamps.push(w.shared.seq.load(SeqCst));
           if done[i] {
             run.post_terminal_inputs += 1;
           }
@@ -374,6 +378,7 @@ fn run_pipeline_inner(case: &PCase, mut pool: Option<&mut futures::executor::Loc
   run.clock_jumps = st.clock_jumps_over_2.load(SeqCst);
   run.timers_created = st.timers_created.load(SeqCst);
   run.tasks_spawned = st.tasks_spawned.load(SeqCst);
+  run.spawn_stamps = st.spawn_stamps.lock().unwrap().clone();
   run.locks = st.locks.load(SeqCst);
   run.finalizers = counters.finalizers.load(SeqCst);
   run.sim_ns = w.now();
